@@ -45,7 +45,7 @@ theorem position_spec (w : World) (id : Int) (pose : Pose) (hwf : w.WF) :
     have hid : e.id = id := World.get_wf w hwf id e he
     unfold stepPosition
     simp only [he]
-    refine ⟨rfl, ?_⟩
+    refine ⟨by first | rfl | trivial, ?_⟩
     have := World.get_put_same w (setPose e pose)
     rw [C05.setPose_id, hid] at this
     exact this
@@ -66,7 +66,7 @@ theorem player_position_set (w : World) (id1 : Int) (pose : Pose) (e : Entity) (
   unfold stepPlayerPosition
   have hb : (id1 != 0) = true := by simpa using h1
   simp only [bne_self_eq_false, Bool.false_eq_true, if_false, hb, if_true, he]
-  refine ⟨rfl, ?_⟩
+  refine ⟨by first | rfl | trivial, ?_⟩
   have := World.get_put_same w (setPose e pose)
   rw [C05.setPose_id, hid] at this
   exact this
@@ -84,7 +84,7 @@ theorem player_position_copy (w : World) (id1 id2 : Int) (pose : Pose) (master s
   have hb : (id2 != 0) = true := by simpa using h2
   unfold poseOf at hp hy hpt hr
   simp only [hb, if_true, hm, hs, copyPose, hp, hy, hpt, hr]
-  refine ⟨rfl, ?_⟩
+  refine ⟨by first | rfl | trivial, ?_⟩
   have := World.get_put_same w (slave.withVol [("position", p), ("yaw", y), ("pitch", pt), ("roll", r)])
   rw [C05.withVol_id, hid] at this
   exact this
